@@ -39,7 +39,7 @@ ASSUMPTIONS = [
     "the scheduler does not model locks: cm_colors takes none; a stall is a HARNESS-ERROR, never a verdict",
     "text results embedding the sandbox path are normalised to <SBX>",
 ]
-PROBES = ["H_runs", "H_ops", "H_probes_after_change", "H_cli_ops", "H_bulk_ops", "H_show_save_ops", "H_slot_reuse", "H_repeat_same_op", "H_alias_family_ops", "H_bulk_position_probes", "H_flood_ops",
+PROBES = ["H_runs", "H_ops", "H_probes_after_change", "H_cli_ops", "H_bulk_ops", "H_show_save_ops", "H_slot_reuse", "H_repeat_same_op", "H_alias_family_ops", "H_bulk_position_probes", "H_flood_ops", "H_heavy_distinct_fix_ops",
           "T_runs", "T_threads", "T_ops", "T_steps", "T_switches", "T_hot_line_hits", "T_switch_in_optimisation", "T_mode_different",
           "T_mode_same", "T_mode_shared_object", "T_runs_with_switch_inside_call", "P_runs", "P_ops", "P_interpreters"]
 
@@ -175,6 +175,21 @@ def generate(rseed, tier, idx):
             k = g.randrange(1 << 20)
             flood = [[enc("#%06x" % ((k + 7919 * j) % (1 << 24) & 0x3f3f3f)), enc("#ffffff")] for j in range(g.choice((40, 150, 300)))]
             ops.insert(g.randrange(len(ops) + 1), {"op": "bulk", "pairs": flood, "mode": 0, "vr": False, "flood": True})
+        if g.random() < 0.04:
+            # VOLUME: a few hundred DISTINCT pairs that all need fixing (strict mode, cheap) - anything bounded by
+            # "so many distinct colours / fixes per process" (cache capacity, eviction, housekeeping) is crossed here
+            k = g.randrange(1 << 20)
+            heavy = []
+            for j in range(g.choice((300, 600))):
+                v = (k + 104729 * j) % 180
+                heavy.append([enc("#%02x%02x%02x" % (126 + v % 9, 126 + (v // 9) % 9, 120 + v % 40)), enc("#%02x%02x%02x" % (250 - j % 6, 250 - (j // 6) % 6, 255 - (j // 36) % 9))])
+            ops.insert(g.randrange(max(1, len(ops) // 2)), {"op": "bulk", "pairs": heavy, "mode": 0, "vr": False, "flood": True, "heavy": True})
+        if g.random() < 0.3:
+            # one translucent text spelling on different backgrounds at different points of the history
+            txt = enc(gen.spell_alpha(g, gen.rand_rgb(g), g.choice((0.25, 0.5, 0.75)), g.choice(gen.ALPHA_SPELLINGS))[0])
+            for _ in range(g.randint(2, 3)):
+                _t, b0, large0 = _pair(g)
+                ops.insert(g.randrange(len(ops) + 1), {"op": g.choice(("make", "pair")), "t": txt, "b": b0, "large": large0, "mode": g.choice((0, 1, None)), "vr": False, "alias": True})
         if g.random() < 0.4:  # members of one alias family at different points of the history, same settings
             fam = gen.alias_family(g)
             t0, b0, large0 = _pair(g)
@@ -249,7 +264,7 @@ def run_cli_op(op):
 
 
 def _run_any(op, ctx, root):
-    sop = {k: v for k, v in op.items() if k not in ("again", "alias", "flood")}
+    sop = {k: v for k, v in op.items() if k not in ("again", "alias", "flood", "heavy")}
     if sop["op"] == "cli":
         return run_cli_op(sop)
     with apiops.Effects(root) as fx:
@@ -306,7 +321,7 @@ def _exec_H(trace):
     model = apiops.Ctx()
     expect = []
     for op in trace["ops"]:
-        sop = {k: v for k, v in op.items() if k not in ("again", "alias", "flood")}
+        sop = {k: v for k, v in op.items() if k not in ("again", "alias", "flood", "heavy")}
         if sop["op"] == "newpair":
             model.slot_spec[sop["slot"]] = {"t": sop["t"], "b": sop["b"], "large": sop.get("large", False)}
         eq = sop if sop["op"] == "cli" else apiops.fresh_equivalent(sop, model)
@@ -342,6 +357,8 @@ def _exec_H(trace):
                 bump("H_alias_family_ops")
             if op.get("flood"):
                 bump("H_flood_ops")
+            if op.get("heavy"):
+                bump("H_heavy_distinct_fix_ops")
             if changed_seen:
                 bump("H_probes_after_change")
                 nontrivial = True
@@ -372,7 +389,7 @@ def _exec_H(trace):
     finally:
         base.rm_tree(root)
     return {"violations": vio, "digest": base.digest(events), "nontrivial": nontrivial, "stats": stats, "steps": stats.get("H_ops", 0),
-            "measures": {"distinct_histories(op lists)": base.digest([{k: v for k, v in o.items() if k not in ("again", "alias", "flood")} for o in trace["ops"]])}}
+            "measures": {"distinct_histories(op lists)": base.digest([{k: v for k, v in o.items() if k not in ("again", "alias", "flood", "heavy")} for o in trace["ops"]])}}
 
 
 def _brief(op):
